@@ -8,6 +8,36 @@ CHECKS = {
  "C01": dict(engine="E1", technique="bounded-exhaustive enumeration of version-grammar products; all pairs by real Compare calls, all triples decided on the comparison matrix by a ranking certificate",
    text="Every pair of a 500-33 600 element grammar-product domain per system is compared on the real code, twice in different orders with fresh parses; reflexivity, antisymmetry, transitivity and congruence are decided for every triple of the domain (sound and complete O(n^2) ranking certificate); sorting is checked on every permutation of every <=5-subset of a 12-element sub-domain. Exhaustive within the stated alphabets, silent about versions outside them.",
    note="Trusted: the harness's matrix/certificate code and the domain generators; Maven is restricted to the DESIGN 6.4 dash-form domain as the property states.", ref="5 C01, 6.1-6.4"),
+ "C02": dict(engine="E1", technique="bounded-exhaustive enumeration: every pair of each ecosystem's version-grammar product compared by the real Compare and by the ecosystem's own implementation (committed reference table, regenerated live and required identical in the thorough tier)",
+   text="Per ecosystem (npm, PyPI, Cargo, Go, Maven, RubyGems, NuGet) every pair of the 700-2 100 string domain that both sides accept (11.9 M pairs quick) is ordered by semver.Compare and by the reference (node-semver 7.6.2, packaging 26.3 with 21.3 as drift detector, semver crate 1.0.28, x/mod/semver, Maven 3.8.7 ComparableVersion; transcribed Gem::Version and NuGet algorithms); every reference-normalised spelling must parse. Exhaustive over the stated alphabets only.",
+   note="Trusted: the reference tools and the two transcriptions; pairs on which the two packaging releases differ are undecided; npm numbers above 2^53 are outside the reference's exact domain. Three known findings suppressed by exact witness.", ref="5 C02, 6.1-6.4"),
+ "C03": dict(engine="E1", technique="bounded-exhaustive enumeration of (requirement, candidate) pairs from range-grammar products; ParseConstraint+Match and resolve.MatchRequirement executed and compared with the ecosystem's own matcher (committed reference table, live in thorough)",
+   text="For npm, Cargo, PyPI and Maven every requirement of the grammar product (operator x operand atoms, AND/OR compounds over colliding atoms, hyphen ranges, three-way ORs, Maven range unions: 1 300-8 700 requirements) is matched against every boundary-neighbour candidate (1.4 M pairs quick) through both library entry points and compared with node-semver satisfies, semver crate VersionReq, packaging SpecifierSet and Maven VersionRange. Exhaustive over the stated alphabets.",
+   note="Trusted: reference tools, candidate-pool derivation. Requirements only one side accepts are reported when the reference accepts a satisfiable requirement the library rejects. Four known findings suppressed by exact witness (one is pinned by the repository's own test).", ref="5 C03, 6.5"),
+ "C04": dict(engine="E1", technique="bounded-exhaustive enumeration of byte strings and token sequences over per-grammar token alphabets, plus deterministic stress families, executed on every text-consuming entry point in watchdog-supervised subprocesses (termination/no-crash oracle)",
+   text="All byte strings up to length 2 and all token sequences up to the tier's length over nine token alphabets (versions, constraints, PEP 508, markers, POM fragments, property tables, schema text) - 2.1 M inputs, 27 M calls in quick - are fed to every parser, to the Maven project pipeline and, carried as requirement/marker/exclusion text, to the three resolvers; each call must return (error or value) without panic, fatal error, stack exhaustion (256 MB cap) or exceeding a 20 s watchdog. Stress families cover 10^4-10^5 repetitions and nesting.",
+   note="Decides termination only up to the watchdog: a call slower than 20 s is reported as a hang, polynomially slow inputs below it are not. Inputs outside the alphabets/lengths are not covered.", ref="5 C04"),
+ "C05": dict(engine="E1+E3", technique="bounded-exhaustive enumeration of universes and call histories on shared client/resolver instances, plus stateless model checking of the real resolvers under a cooperative controlled scheduler with iterative preemption bounding (all interleavings of 2 threads up to the bound at client-call granularity)",
+   text="For every universe within the deviation bound from the npm/Maven/PyPI bases (6 378 universes quick) each root is resolved on a fresh client (reference) and again inside every ordered pair/triple history, on a second resolver, under every adjacent transposition of insertion order, with a byte-exact snapshot of everything the client reports before and after each Resolve; then all schedules with <= 1 (quick) / 2 (thorough) preemptions of two goroutines resolving on one shared client are executed on the real code (265 k schedules quick); every outcome must equal the sequential reference and no schedule may deadlock.",
+   note="Scheduling points are client calls and vsync mutex operations, not individual memory accesses: data races between points are outside what the scheduler sees (a free-running -race pass is listed as future work in DESIGN). Scenarios whose default schedule exceeds 150 points run that schedule only and are counted in the evidence.", ref="5 C05, 6.6, 8"),
+ "C06": dict(engine="E1", technique="bounded-exhaustive enumeration of npm universes (deviation-bounded from two bases) x all roots; the real resolver's graph and its internal install tree (verif hook) checked against invariants computed from the harness's own universe model",
+   text="138 922 universes / 412 044 resolutions in quick: every set of <= 3 deviations (<= 2 on the diamond-conflict template) over requirement slots (7 requirement texts incl. dist-tags, x-ranges, prerelease ranges) and decorations (optional/dev/peer/bundled, aliases, deprecated, latest tag); per resolution: every edge satisfies its requirement, every non-dev non-peer requirement is an edge or a recorded error, reachability, fresh-install choice, and on the install tree: unique names per directory and Node's walk-up lookup reaches the edge's target.",
+   note="Trusted: the hand satisfaction table for the 7 requirement texts x 4 versions and the tree walk-up model. Install tree is read through the verif-tagged hook (commit ce712c8).", ref="5 C06, 6.6(a)"),
+ "C07": dict(engine="E1", technique="bounded-exhaustive enumeration of Maven universes (deviation-bounded from three bases, plus focused exclusion/scope/type families) x all roots; real resolver output checked against invariants from the harness's universe model",
+   text="18 074 universes / 82 951 resolutions in quick over soft and ranged requirements, scopes, optional, exclusions incl. wildcards, classifiers, types and root dependency management: one version per artifact key, range edges inside their range, nearest-wins for soft declarations (judged where no range on the artifact exists), managed version overrides, excluded artifacts unreachable on that path, test/optional/provided only from the root, every followed declaration is an edge or a node error, reachability.",
+   note="Trusted: the breadth-first reference walk in the harness (70 lines) and the hand range table.", ref="5 C07, 6.6(b)"),
+ "C08": dict(engine="E1", technique="bounded-exhaustive enumeration of PyPI universes (deviation-bounded from three bases incl. a backtracking-conflict and an extras template, plus focused marker/extras and specifier families) x all roots; real resolver output checked against invariants from the harness's universe model",
+   text="30 379 universes / 166 121 resolutions in quick: for every graph returned without a graph-level error: one version per package, root kept, every requirement whose marker is true (for the fixed environment and the extras requested in the graph) is an edge to a version satisfying the specifier under pip's prerelease rule, false markers contribute no edge, no edge without a requirement, reachability.",
+   note="Trusted: hand specifier table and marker truth table of the alphabets. Two known findings (extras requested after a pin; stale extras after re-pin) are suppressed by exact witness lists (1 447 + 63 witnesses across both tiers).", ref="5 C08, 6.6(c)"),
+ "C12": dict(engine="E1", technique="bounded-exhaustive enumeration of record subsets x all permutations x requirement alphabet; resolve.MatchRequirement and LocalClient.MatchingVersions executed and compared with a hand table in reference order",
+   text="Per system (npm, Maven, PyPI) every subset of <= 4 (quick) / 5 (thorough) records of a 9-11 record alphabet (equal-precedence spellings, prereleases, dist-tags, unparsable strings) in every permutation x 10-16 requirements (581 k evaluations quick): both entry points must return exactly the expected matches in ecosystem order regardless of insertion order.",
+   note="Trusted: the hand match table. PyPI prerelease records on which packaging 21.3 and 26.3 differ are excluded.", ref="5 C12"),
+ "C17": dict(engine="E1", technique="complete enumeration of every declaration of both API versions from embedded descriptors and from the .proto sources (own proto3 parser); simulation check v3 <= v3alpha and descriptor/source/generated-code agreement",
+   text="All 6 576 declaration nodes (services, RPCs with HTTP bindings, messages, fields with number/type/cardinality/oneof, enums) of api/v3 and api/v3alpha are enumerated; every v3 node must exist identically in v3alpha (HTTP paths modulo version prefix), .proto text must equal the embedded descriptor in both directions incl. order, generated gRPC stubs and struct tags must equal the descriptor, resolve.System constants must equal the API enum.",
+   note="Complete for the finite object it examines (not a bounded sample). Trusted: the 300-line proto3 parser.", ref="5 C17"),
+ "C18": dict(engine="E1+E3", technique="bounded-exhaustive enumeration of fake-service contents with the real APIClient compared against the documented mapping loaded in a LocalClient, plus stateless model checking of two goroutines on one APIClient under the controlled scheduler (preemption-bounded, scheduling points at mutex operations and RPC boundaries)",
+   text="15 334 service contents (<= 3 deviations over bundle positions, dependency kinds, aliases) in quick: Version/Versions/Requirements/MatchingVersions for every bundled and ordinary key and the npm resolution must equal the model's; then all schedules with <= 2 preemptions of two threads (808 k schedules over 698 scenarios) must give graphs equal to the sequential reference, show bundles atomically and never deadlock.",
+   note="The fake Insights server is the harness's; gRPC transport is bypassed (direct InsightsClient implementation). Process-global cache pollution found by a long run is reported with the universe that exposed it, which may not reproduce it alone.", ref="5 C18, 8"),
  "C09": dict(engine="E1", technique="bounded-exhaustive enumeration: all ordered pairs of a constraint-grammar product, Union/Intersect executed on the real Set type, membership compared on all boundary-neighbour versions",
    text="For Default, NPM, Cargo and Go every ordered pair (A,B) of 100-1300 parsed constraints is combined with the real Union and Intersect (both operand orders, fresh parses); membership of every boundary-neighbour version of both operands is compared with A's and B's own under normal and prerelease-inclusive matching; Empty(), operand purity and alternative-order invariance are checked. Exhaustive over the stated constraint/version alphabets.",
    note="Trusted: boundary-version derivation (neighbours of every bound printed by Set.String) - a disagreement strictly between listed neighbours would be missed; prerelease-inclusive matching of result sets goes through ParseSetConstraint(String()). One known finding (adjacent-merge-prerelease-gap) is suppressed by exact witness.", ref="5 C09, 6.5"),
@@ -68,7 +98,7 @@ def main():
     json.dump(m, open(os.path.join(ROOT, "MANIFEST.json"), "w"), indent=1)
     print("MANIFEST.json: %d checks, %d not_applicable" % (len(checks), len(m["not_applicable"])))
 
-HOOK_COMMITS = []
+HOOK_COMMITS = ["ce712c8"]
 NA = {}
 if __name__ == "__main__":
     main()
